@@ -287,16 +287,7 @@ def r04_4(ctx):
 def r04_5(ctx):
     for which, sus in (("html", "Suspend"), ("xml", "Done")):
         T = ctx.tables(which)
-        eat = T["helpers"].get("eat") or []
-        need = [pc for pc in eat if pc["ret"] == "None"]
-        # the None answer is given only where the queue's own next() came back empty, and the iteration that did get a character
-        # moves it into temp_buf and goes round again
-        drained = bool(need) and all(any(g.startswith("input.next() matches Some") and v is False for g, v in pc["guards"].items()) for pc in need)
-        moving = [pc for pc in eat if any(g.startswith("input.next() matches Some") and v is True for g, v in pc["guards"].items())]
-        ok = drained and bool(moving) and all(any(a == "self.temp_buf.push_char" for a, _ in pc["actions"]) and pc["ret"] not in ("None",) for pc in moving)
-        ctx.ob("R04.5", "eat-drains-the-queue-when-it-needs-more/%s" % which, ok,
-               "when eat() answers 'need more input' it has moved the *whole* queue into temp_buf (a loop over input.next())" if ok else
-               "eat() can answer 'need more input' leaving characters in the caller's queue: feed() returns Done with unconsumed input and finish() asserts", "%s tokenizer eat" % which)
+        tr.eat_drains_queue(ctx, "R04.5", which)
         run = T["helpers"].get("run") or []
         done = [pc for pc in run if pc["ret"] in ("Done",)]
         ok = bool(done) and all(any(v and ("matches %s" % sus) in g for g, v in pc["guards"].items()) for pc in done)
